@@ -50,7 +50,8 @@ class Stats:
         self.samples = []
         self.known = {}
         self.budget_skipped = 0
-        self._cur_hash = None
+        # for enumerations that are distinct by construction and too large to hash case by case
+        self.extra_nontrivial = 0
 
     def count(self, key, n=1):
         self.counters[key] = self.counters.get(key, 0) + n
@@ -65,6 +66,7 @@ class Stats:
     def merge(self, other):
         self.evaluations += other.evaluations
         self.budget_skipped += other.budget_skipped
+        self.extra_nontrivial += other.extra_nontrivial
         for k, v in other.counters.items():
             self.counters[k] = self.counters.get(k, 0) + v
         for k, v in other.known.items():
@@ -382,7 +384,7 @@ def run_check(prop, tier, seed):
                     failure = (part.name, out["failure"])
                     pool.terminate()
                     break
-        per_part[part.name] = {"evaluations": pstats.evaluations, "distinct_nontrivial": len(pstats.nontrivial),
+        per_part[part.name] = {"evaluations": pstats.evaluations, "distinct_nontrivial": len(pstats.nontrivial) + pstats.extra_nontrivial,
                                "counters": dict(sorted(pstats.counters.items()))}
         total.merge(pstats)
         if failure:
@@ -405,7 +407,7 @@ def run_check(prop, tier, seed):
               (prop, e["what"], e["id"], total.known.get(e["id"], 0)))
     _write_evidence(mod, prop, tier, seed, total, per_part, exhaustive_flags, wall, 0, nreg, budget_hit)
     print("OK property=%s tier=%s seed=%d evaluations=%d distinct_nontrivial=%d regressions=%d wall=%.1fs%s" %
-          (prop, tier, seed, total.evaluations, len(total.nontrivial), nreg, wall,
+          (prop, tier, seed, total.evaluations, len(total.nontrivial) + total.extra_nontrivial, nreg, wall,
            " BUDGET-HIT (inconclusive beyond the counts reached)" if budget_hit else ""))
     return 0
 
@@ -414,7 +416,7 @@ def _write_evidence(mod, prop, tier, seed, total, per_part, exhaustive_flags, wa
     os.makedirs(os.path.join(HERE, "evidence"), exist_ok=True)
     cov = {
         "evaluations": total.evaluations,
-        "distinct_nontrivial": len(total.nontrivial),
+        "distinct_nontrivial": len(total.nontrivial) + total.extra_nontrivial,
         "rule": mod.RULE,
         "samples": jsonable(total.samples[:5]),
         "parts": per_part,
